@@ -18,7 +18,10 @@ from lib import sim
 
 HBARS = [1.0, 0.5, 0.7, 3.0, 4.5, 0.98]
 MAX_WEIGHTS_FOCK = 12
-METHOD_TOL = {"squeezing": 1e-6}
+# thewalrus-backed Fock-basis numbers carry absolute noise of a few 1e-9 (entries that are exactly 0 at one hbar come out as
+# 3e-9 at another); real scaling mistakes are at the 1e-2 level
+METHOD_TOL = {"squeezing": 1e-6, "reduced_dm": 1e-8, "dm": 1e-8, "ket": 1e-8, "all_fock_probs": 1e-8, "fock_prob": 1e-8,
+              "fidelity_coherent": 1e-8, "fidelity_vacuum": 1e-8}
 NAN_WILD = {"squeezing"}
 # power of s carried by numeric parameter j of a class
 PAR_DIM = {"Xgate": [1], "Zgate": [1], "Vgate": [-1]}
